@@ -48,6 +48,27 @@
 (*           an ILLEGAL value assigned to size_field_behavior is rejected  *)
 (*           (the caller catches the exception): the option keeps its      *)
 (*           value, every later dump is what it would have been.           *)
+(*   Reorder                                                               *)
+(*           the paragraph is an ordered, CASE-INSENSITIVE mapping; its    *)
+(*           public re-ordering operations -- sort_fields() with the       *)
+(*           default key or a key function, order_first / order_last(f),   *)
+(*           order_before / order_after(f, g) -- may be called at any time *)
+(*           between building / parsing and dumping.  The ORDER of the     *)
+(*           fields is not part of this model (the text of a dump is a     *)
+(*           function field -> lines: the statement of C12 is free of the  *)
+(*           order of the fields, which is C09's subject); Reorder is      *)
+(*           described by what it must NOT change: the records, the        *)
+(*           option, and the way the key set answers look-ups.  The latter *)
+(*           is state (fold: field -> "the stored key still compares       *)
+(*           case-insensitively"): the class's width computation asks      *)
+(*           `key in self` with its own lower-case table keys while every  *)
+(*           documented field name contains upper-case letters, and        *)
+(*           obj[f] / del obj[f] / f in obj are asked in any spelling.     *)
+(*           Only fields the look-up finds (Visible) get a width and can   *)
+(*           be edited or deleted; the design keeps fold TRUE everywhere   *)
+(*           (KeysFold), so Visible = the present fields.  Field 0 stands  *)
+(*           for a field outside the tables (Origin, Source ...: context   *)
+(*           the binding adds), which may be moved or serve as reference.  *)
 (*                                                                         *)
 (* The width computation needs the records of a field only where the width *)
 (* depends on them (PdiffIndex; Release with dak).  The design iterates    *)
@@ -75,9 +96,14 @@
 (* StoreBeforeValidate = TRUE lets a rejected assignment leave the illegal *)
 (* value behind: the next dump of a paragraph with a structured field      *)
 (* raises, DumpTotal is violated (MC_MultiValued_neg_storefirst.cfg).      *)
+(* ReorderStoresPlainKeys = TRUE lets a re-ordering operation store the    *)
+(* keys it moves as plain strings: the class's own look-ups no longer find *)
+(* them, the size column is written unpadded and WidthTable is violated    *)
+(* (MC_MultiValued_neg_plainkeys.cfg).                                     *)
 (* All were tried; props/c12.py re-runs                                    *)
 (* IterateAllFields and one of CacheWidths, SharedEqualRecords,            *)
-(* ClassLevelOption, StoreBeforeValidate in every quick check, all of them *)
+(* ClassLevelOption, StoreBeforeValidate, ReorderStoresPlainKeys in every  *)
+(* quick check, all of them                                                *)
 (* and the other two configurations in the thorough tier,                  *)
 (* and fails (exit 2) if TLC stops reporting the violation.                *)
 (*                                                                         *)
@@ -137,6 +163,7 @@ CONSTANTS Tables,            \* class -> <<[f |-> field name, subs |-> <<sub-fie
           SharedEqualRecords,\* negative control: records parsed from identical lines are one shared object
           ClassLevelOption,  \* negative control: size_field_behavior is shared by all Release objects
           StoreBeforeValidate, \* negative control: a rejected size_field_behavior value is stored nevertheless
+          ReorderStoresPlainKeys, \* negative control: a re-ordering operation stores the moved keys as plain (case-sensitive) strings
           Emit,              \* print CASE lines (and the tables)
           EmitOff            \* rotates the sample of the modes with emitmod > 1 (set from the seed)
 
@@ -154,9 +181,10 @@ VARIABLES mode,              \* the enumeration mode: [name, uniform, maxf, heav
           res,               \* outcome of Dump: "ok" | "KeyError" | "ValueError"
           nmut,              \* number of mutations applied to the object so far
           hist,              \* modes with maxmut > 0: the history (dumps with their expected layout, mutations)
-          cache              \* [valid, w]: remembered width table (always NoCache unless CacheWidths)
+          cache,             \* [valid, w]: remembered width table (always NoCache unless CacheWidths)
+          fold               \* present field -> its stored key compares case-insensitively (always TRUE unless ReorderStoresPlainKeys)
 
-vars == <<mode, cls, start, opt, shape, para, phase, widths, text, parsed, res, nmut, hist, cache>>
+vars == <<mode, cls, start, opt, shape, para, phase, widths, text, parsed, res, nmut, hist, cache, fold>>
 beh  == opt.beh      \* the documented behaviour of this object
 
 ----------------------------------------------------------------------------
@@ -302,13 +330,14 @@ Init == /\ \E m \in Modes : /\ mode = [name |-> m.name, uniform |-> m.uniform, m
                                   /\ opt = [beh |-> b, set |-> st, shared |-> b]
                             /\ shape \in (IF m.uniform THEN m.shapes ELSE {NoShape})
         /\ para = <<>> /\ phase = "build" /\ widths = <<>> /\ text = <<>> /\ parsed = <<>> /\ res = "ok"
-        /\ nmut = 0 /\ hist = <<>> /\ cache = NoCache
+        /\ nmut = 0 /\ hist = <<>> /\ cache = NoCache /\ fold = <<>>
 
 \* obj[field] = [record, ...]  (or one mapping: single-line form)
 BuildWith(f, e) == /\ phase = "build"
                    /\ f \in 1..NFields /\ f \notin DOMAIN para
                    /\ MEntryOK(Subs(f), e) = TRUE     \* ("= TRUE": evaluated as a value, not expanded on the Java stack)
                    /\ para' = MExt(para, f, e)
+                   /\ fold' = MExt(fold, f, TRUE)
                    /\ cache' = NoCache
                    /\ UNCHANGED <<mode, cls, start, opt, shape, phase, widths, text, parsed, res, nmut, hist>>
 \* bounded enumeration: fields are added in table order (every subset is reached exactly once),
@@ -346,6 +375,7 @@ ShapeNo == IF mode.uniform
 \* (a checksum of the history, so that the sample of a mode with histories is spread over the paths)
 StrCode(x) == CASE x = Apt -> 1 [] x = Dak -> 2 [] x = "-" -> 3 [] x = "Release" -> 4 [] x = "PdiffIndex" -> 5
                 [] x = "Changes" -> 6 [] x = "Dsc" -> 7 [] OTHER -> 8
+KindCode(x) == CASE x = "sort" -> 1 [] x = "sortkey" -> 2 [] x = "first" -> 3 [] x = "last" -> 4 [] x = "before" -> 5 [] OTHER -> 6
 OpCode(e) == CASE e[1] = "dump" -> 1
                [] e[1] = "append"  -> 10 + e[2] + e[3][2][2]
                [] e[1] = "setsize" -> 20 + 3 * e[2] + 7 * e[3] + e[4][2]
@@ -353,6 +383,7 @@ OpCode(e) == CASE e[1] = "dump" -> 1
                [] e[1] = "delete"  -> 50 + e[2]
                [] e[1] = "setbeh"  -> 60 + StrCode(e[2])
                [] e[1] = "other"   -> 70 + 3 * StrCode(e[2]) + StrCode(e[3])
+               [] e[1] = "reorder" -> 100 + 11 * KindCode(e[2]) + 5 * e[3] + 3 * e[4]
                [] OTHER -> 90
 HistSum  == FoldSeq(LAMBDA e, acc : (acc * 31 + OpCode(e)) % 8191, 0, hist)
 Sampled  == \/ mode.emitmod = 1
@@ -364,23 +395,27 @@ Selected == IF mode.maxmut > 0
 
 \* obj.dump(), first half: the width table (this is where an absent field hurts); the design
 \* computes it from the current records at every dump
-IterSet == IF IterateAllFields THEN 1..NFields ELSE DOMAIN para
+\* (the width computation asks `key in self` for each of the class's lower-case table keys: it sees
+\*  the fields whose stored key answers a look-up in another spelling)
+Visible == {f \in DOMAIN para : fold[f]}
+IterSet == IF IterateAllFields THEN 1..NFields ELSE Visible
 \* the behaviour the dump goes by: the object's own option (negative control: the class-level one)
 EBeh    == IF ClassLevelOption /\ cls = "Release" THEN opt.shared ELSE opt.beh
-WTable  == IF CacheWidths /\ cache.valid THEN cache.w ELSE MWidthTable(Tables, cls, EBeh, para)
+WTable  == IF CacheWidths /\ cache.valid THEN cache.w
+           ELSE [f \in DOMAIN para |-> IF fold[f] THEN MWidthTable(Tables, cls, EBeh, para)[f] ELSE 0]
 Widths == /\ phase = "build"
           /\ res' = MDumpRes(cls, EBeh, DOMAIN para, IterSet)
           /\ widths' = (IF res' = "ok" THEN WTable ELSE <<>>)
           /\ cache' = (IF CacheWidths /\ res' = "ok" THEN [valid |-> TRUE, w |-> WTable] ELSE cache)
           /\ phase' = "widths"
-          /\ UNCHANGED <<mode, cls, start, opt, shape, para, text, parsed, nmut, hist>>
+          /\ UNCHANGED <<mode, cls, start, opt, shape, para, text, parsed, nmut, hist, fold>>
 \* second half: every present field is written with its width
 \* (a mode with heavy = FALSE goes on only with the paragraphs that are printed as CASE lines)
 Write  == /\ phase = "widths" /\ res = "ok"
           /\ (IF mode.heavy THEN TRUE ELSE Selected)
           /\ text' = MCanonText(Tables, cls, para, widths)
           /\ phase' = "dumped"
-          /\ UNCHANGED <<mode, cls, start, opt, shape, para, widths, parsed, res, nmut, hist, cache>>
+          /\ UNCHANGED <<mode, cls, start, opt, shape, para, widths, parsed, res, nmut, hist, cache, fold>>
 \* both halves in one step, with t as the text written (trace validation: t = the observed text)
 DumpTo(t) == /\ phase = "build"
              /\ res' = MDumpRes(cls, EBeh, DOMAIN para, IterSet)
@@ -388,20 +423,21 @@ DumpTo(t) == /\ phase = "build"
              /\ cache' = (IF CacheWidths /\ res' = "ok" THEN [valid |-> TRUE, w |-> WTable] ELSE cache)
              /\ text' = (IF res' = "ok" THEN t ELSE <<>>)
              /\ phase' = "dumped"
-             /\ UNCHANGED <<mode, cls, start, opt, shape, para, parsed, nmut, hist>>
+             /\ UNCHANGED <<mode, cls, start, opt, shape, para, parsed, nmut, hist, fold>>
 
 \* cls(text): every line of every structured field becomes a record
 Parse == /\ phase = "dumped" /\ res = "ok"
          /\ parsed' = [f \in DOMAIN text |-> MParseField(Subs(f), text[f], SplitEverySpace)]
          /\ phase' = "parsed" /\ text' = <<>>
          /\ hist' = (IF mode.maxmut > 0 THEN Append(hist, <<"dump", CaseF(parsed')>>) ELSE hist)
-         /\ UNCHANGED <<mode, cls, start, opt, shape, para, widths, res, nmut, cache>>
+         /\ UNCHANGED <<mode, cls, start, opt, shape, para, widths, res, nmut, cache, fold>>
          /\ (Emit /\ Selected) => PrintT(<<"CASE", ToJson(CaseOf(parsed', hist'))>>)
 
 \* the parsed paragraph is an object like the one that was built: it can be dumped again
 \* (not explored in a mode with heavy = FALSE: RecordsRoundTrip says the same)
 Load == /\ phase = "parsed" /\ mode.heavy /\ mode.maxmut = 0
         /\ para' = MUntag(parsed)
+        /\ fold' = [f \in DOMAIN parsed |-> TRUE]        \* a fresh object
         /\ phase' = "build" /\ widths' = <<>> /\ text' = <<>> /\ parsed' = <<>>
         /\ cache' = NoCache
         /\ UNCHANGED <<mode, cls, start, opt, shape, res, nmut, hist>>
@@ -413,47 +449,69 @@ AfterMut(entry) == /\ phase' = "build" /\ widths' = <<>> /\ text' = <<>> /\ pars
                    /\ hist' = (IF mode.maxmut > 0 THEN Append(hist, entry) ELSE hist)
                    /\ UNCHANGED <<mode, cls, start, shape, res>>
 \* obj[field].append(record): in place
-AppendRec(f, rec) == /\ Mutable /\ f \in DOMAIN para /\ para[f].form = "multi"
+AppendRec(f, rec) == /\ Mutable /\ f \in Visible /\ para[f].form = "multi"
                      /\ Len(rec) = Len(Subs(f))
                      /\ para' = [para EXCEPT ![f].recs = Append(@, rec)]
-                     /\ UNCHANGED <<cache, opt>>
+                     /\ UNCHANGED <<cache, opt, fold>>
                      /\ AfterMut(<<"append", f, MPairs(rec)>>)
 \* obj[field][r]['size'] = token: in place, position r only
 \* (negative control: every position of a PARSED list that holds the same content is the same object)
 SetSize(f, r, tok) ==
-    /\ Mutable /\ f \in DOMAIN para /\ r \in 1..Len(para[f].recs)
+    /\ Mutable /\ f \in Visible /\ r \in 1..Len(para[f].recs)
     /\ LET rs == para[f].recs
            hit == IF SharedEqualRecords /\ start.origin = "parsed"
                   THEN {q \in 1..Len(rs) : rs[q] = rs[r]} ELSE {r}
        IN  para' = [para EXCEPT ![f].recs = [q \in 1..Len(rs) |->
                         IF q \in hit THEN [rs[q] EXCEPT ![MSizeCol(Subs(f))] = tok] ELSE rs[q]]]
-    /\ UNCHANGED <<cache, opt>>
+    /\ UNCHANGED <<cache, opt, fold>>
     /\ AfterMut(<<"setsize", f, r, <<tok.id, tok.len>>>>)
 \* obj[field] = [record, ...]: the whole list is replaced (or the field added) by assignment
 Assign(f, e) == /\ Mutable /\ f \in 1..NFields /\ MEntryOK(Subs(f), e) = TRUE
                 /\ para' = MExt(para, f, e)
+                /\ fold' = MExt(fold, f, TRUE)
                 /\ cache' = NoCache /\ UNCHANGED opt
                 /\ AfterMut(<<"assign", f, [r \in 1..Len(e.recs) |-> MPairs(e.recs[r])]>>)
 \* del obj[field]
-Delete(f) == /\ Mutable /\ f \in DOMAIN para
+Delete(f) == /\ Mutable /\ f \in Visible
              /\ para' = [g \in DOMAIN para \ {f} |-> para[g]]
+             /\ fold' = [g \in DOMAIN para \ {f} |-> fold[g]]
              /\ cache' = NoCache /\ UNCHANGED opt
              /\ AfterMut(<<"delete", f>>)
 \* obj.size_field_behavior = v: state of THIS object
 SetBeh(v) == /\ cls = "Release" /\ v \in {Apt, Dak}
              /\ opt' = [beh |-> v, set |-> TRUE, shared |-> IF ClassLevelOption THEN v ELSE opt.shared]
-             /\ cache' = NoCache /\ UNCHANGED para
+             /\ cache' = NoCache /\ UNCHANGED <<para, fold>>
              /\ AfterMut(<<"setbeh", v>>)
 \* obj.size_field_behavior = <an illegal value> raises (and the caller goes on): nothing changes
 SetBehFails == /\ cls = "Release"
                /\ opt' = (IF StoreBeforeValidate THEN [opt EXCEPT !.beh = "illegal"] ELSE opt)
-               /\ UNCHANGED <<para, cache>>
+               /\ UNCHANGED <<para, cache, fold>>
                /\ AfterMut(<<"setbehfails">>)
 \* a step of ANOTHER live object of class c (created if need be; v # "-": its size_field_behavior
 \* is set to v; it is dumped): nothing of this object changes
 OtherSet(c, v) == /\ opt' = [opt EXCEPT !.shared = IF ClassLevelOption /\ c = "Release" /\ v # "-" THEN v ELSE @]
-                  /\ UNCHANGED <<para, cache>>
+                  /\ UNCHANGED <<para, cache, fold>>
                   /\ AfterMut(<<"other", c, v>>)
+\* obj.sort_fields() / obj.sort_fields(key function) / obj.order_first(f) / order_last(f) /
+\* order_before(f, g) / order_after(f, g): the ORDER of the fields changes (not modelled), nothing
+\* else -- at any time the object exists: before the first dump, between dumps.  f, g: present
+\* structured fields, or 0 = a field outside the tables.
+\* (negative control: the keys that are moved -- all of them when sorting -- are stored as plain strings)
+ReorderAll == {"sort", "sortkey"}
+ReorderOne == {"first", "last"}
+ReorderRel == {"before", "after"}
+MReorderOK(kind, f, g, present) ==
+    \/ kind \in ReorderAll /\ f = 0 /\ g = 0
+    \/ kind \in ReorderOne /\ f \in present \cup {0} /\ g = 0
+    \/ kind \in ReorderRel /\ f \in present \cup {0} /\ g \in present \cup {0} /\ f # g
+Reorder(kind, f, g) ==
+    /\ phase \in {"build", "dumped", "parsed"} /\ res = "ok"
+    /\ MReorderOK(kind, f, g, DOMAIN para) = TRUE
+    /\ fold' = (IF ReorderStoresPlainKeys
+                THEN [h \in DOMAIN fold |-> IF kind \in ReorderAll \/ h = f THEN FALSE ELSE fold[h]]
+                ELSE fold)
+    /\ UNCHANGED <<para, cache, opt>>
+    /\ AfterMut(<<"reorder", kind, f, g>>)
 \* bounded enumeration: the kinds of mutation of the mode; fresh tokens (ids beyond those of
 \* MMkRecs), sizes from the mode
 Fresh == 1000 * (nmut + 1)
@@ -474,14 +532,25 @@ Mutate == /\ phase = "parsed" /\ nmut < mode.maxmut
              \/ /\ "other" \in Kinds /\ DOMAIN para # {}
                 /\ \E ov \in ModeDef.others : OtherSet(ov[1], ov[2])
              \/ "setbehfails" \in Kinds /\ DOMAIN para # {} /\ SetBehFails
+             \/ /\ "reorder" \in Kinds /\ DOMAIN para # {}
+                /\ \A i \in 1..Len(hist) : hist[i][1] # "reorder"    \* bounded enumeration: one per history (recorded traces: any number)
+                /\ \E kind \in ReorderAll \cup ReorderOne \cup ReorderRel :
+                      \E f \in DOMAIN para \cup {0} : \E g \in DOMAIN para \cup {0} : Reorder(kind, f, g)
 \* another object may also have been configured BEFORE this one is created
 PreOther == /\ phase = "build" /\ para = <<>> /\ hist = <<>> /\ nmut < mode.maxmut
             /\ "other" \in Kinds
             /\ \E ov \in ModeDef.others : OtherSet(ov[1], ov[2])
 
+\* ... and a complete paragraph may be re-ordered BEFORE its first dump (once)
+PreReorder == /\ phase = "build" /\ NoDumpYet /\ nmut < mode.maxmut
+              /\ "reorder" \in Kinds
+              /\ Cardinality(DOMAIN para) = mode.maxf
+              /\ \E kind \in ReorderAll \cup ReorderOne \cup ReorderRel :
+                    \E f \in DOMAIN para \cup {0} : \E g \in DOMAIN para \cup {0} : Reorder(kind, f, g)
+
 Next == \/ /\ phase = "build" /\ Cardinality(DOMAIN para) < mode.maxf
            /\ \E sh \in (IF mode.uniform THEN {shape} ELSE ModeShapes) : \E f \in 1..NFields : Build(f, sh)
-        \/ Widths \/ Write \/ Parse \/ Load \/ Mutate \/ PreOther
+        \/ Widths \/ Write \/ Parse \/ Load \/ Mutate \/ PreOther \/ PreReorder
 
 Spec == Init /\ [][Next]_vars
 
@@ -507,6 +576,12 @@ TypeOK == /\ phase \in {"build", "widths", "dumped", "parsed"} /\ res \in {"ok",
           /\ ~StoreBeforeValidate => opt.beh \in (IF cls = "Release" THEN {Apt, Dak} ELSE {"-"})
           /\ (~StoreBeforeValidate /\ ~opt.set) => opt.beh = start.beh   \* an untouched Release is at the documented default
           /\ ~start.set /\ cls = "Release" => start.beh = Apt
+          /\ DOMAIN fold = DOMAIN para /\ \A f \in DOMAIN fold : fold[f] \in BOOLEAN
+          /\ ~ReorderStoresPlainKeys => \A f \in DOMAIN fold : fold[f]
+
+\* the key set answers look-ups in any spelling, whatever was done to the ORDER of the fields:
+\* every present field is found (by the class's own lower-case look-ups, by obj[f], del obj[f], f in obj)
+KeysFold == \A f \in DOMAIN para : f \in Visible
 
 \* dump() is defined for EVERY subset of the structured fields
 DumpTotal == phase # "build" => res = "ok"
@@ -535,8 +610,9 @@ EditIsLocal == [][(Len(hist') = Len(hist) + 1 /\ hist'[Len(hist')][1] = "setsize
                     /\ \A g \in DOMAIN para \ {e[2]} : para'[g] = para[g]
                     /\ Len(para'[e[2]].recs) = Len(para[e[2]].recs)
                     /\ \A q \in 1..Len(para[e[2]].recs) : q # e[3] => para'[e[2]].recs[q] = para[e[2]].recs[q]]_vars
-\* a step of another object, or a rejected assignment, changes nothing of this one
-OtherIsOther == [][(Len(hist') = Len(hist) + 1 /\ hist'[Len(hist')][1] \in {"other", "setbehfails"}) =>
+\* a step of another object, a rejected assignment, or a re-ordering of the fields changes nothing
+\* of the records and the option of this one
+OtherIsOther == [][(Len(hist') = Len(hist) + 1 /\ hist'[Len(hist')][1] \in {"other", "setbehfails", "reorder"}) =>
                      (para' = para /\ opt'.beh = opt.beh /\ opt'.set = opt.set)]_vars
 
 \* every parsed record carries exactly the documented sub-field names, in the documented order
@@ -585,7 +661,7 @@ XMode(name, configs, shapes, uniform, maxf, heavy, emitmod, maxmut, mutsizes, fl
     [name |-> name, configs |-> configs, shapes |-> shapes, uniform |-> uniform, maxf |-> maxf,
      heavy |-> heavy, emitmod |-> emitmod, maxmut |-> maxmut, mutsizes |-> mutsizes, flimit |-> flimit,
      kinds |-> kinds, origins |-> origins, others |-> others]
-ListKinds == {"append", "setsize", "assign", "delete"}
+ListKinds == {"append", "setsize", "assign", "delete", "reorder"}
 HMode(name, configs, shapes, uniform, maxf, heavy, emitmod, maxmut, mutsizes, flimit) ==
     XMode(name, configs, shapes, uniform, maxf, heavy, emitmod, maxmut, mutsizes, flimit, ListKinds, {"built"}, {})
 Mode(name, configs, shapes, uniform, maxf, heavy, emitmod) ==
@@ -615,18 +691,18 @@ LiveConfigs  == {<<"Release", Apt>>, <<"Release", Dak>>, <<"Release", "default">
 \* the other live objects: <<class, value assigned to its size_field_behavior ("-": none)>>
 LiveOthers   == {<<"Release", Apt>>, <<"Release", Dak>>, <<"PdiffIndex", "-">>, <<"Changes", "-">>}
 LiveOthersT  == LiveOthers \cup {<<"Release", "-">>, <<"Dsc", "-">>}
-LiveKinds    == {"setbeh", "other", "setbehfails"}
-LiveKindsT   == {"setbeh", "other", "setbehfails", "setsize"}
+LiveKinds    == {"setbeh", "other", "setbehfails", "reorder"}
+LiveKindsT   == {"setbeh", "other", "setbehfails", "setsize", "reorder"}
 
 \* quick tier (two TLC runs in parallel)
 ModesQuick ==
   { Mode("subsets4", SmallConfigs, ShapesSubsets,      TRUE,  4,  TRUE,  1),
     Mode("records",  AllConfigs,   ShapesRecordsQuick, FALSE, 1,  TRUE,  1),
     Mode("pairs",    PairConfigs,  ShapesPairsQuick,   FALSE, 2,  TRUE,  1),
-    HMode("hist",    HistConfigs,  ShapesHist,         FALSE, 1,  TRUE,  3, 2, {1, 7}, 4),
-    HMode("histP",   PdiffConfig,  ShapesHist,         FALSE, 1,  TRUE,  3, 2, {1, 7}, 2),
-    XMode("alias",   AliasConfigs, ShapesAlias,        FALSE, 1,  TRUE,  2, 2, {1, 7}, 2, {"setsize", "append"}, {"parsed"}, {}),
-    XMode("live",    LiveConfigs,  ShapesLive,         FALSE, 1,  TRUE,  3, 2, {7}, 1, LiveKinds, {"built"}, LiveOthers) }
+    HMode("hist",    HistConfigs,  ShapesHist,         FALSE, 1,  TRUE,  8, 2, {1, 7}, 4),
+    HMode("histP",   PdiffConfig,  ShapesHist,         FALSE, 1,  TRUE,  7, 2, {1, 7}, 2),
+    XMode("alias",   AliasConfigs, ShapesAlias,        FALSE, 1,  TRUE,  6, 2, {1, 7}, 2, {"setsize", "append", "reorder"}, {"parsed"}, {}),
+    XMode("live",    LiveConfigs,  ShapesLive,         FALSE, 1,  TRUE,  7, 2, {7}, 1, LiveKinds, {"built"}, LiveOthers) }
 ModesQuickP ==
   { Mode("subsetsP", PdiffConfig,  ShapesSubsetsP1,    TRUE,  14, FALSE, 24) }
 \* thorough tier
@@ -635,10 +711,10 @@ ModesThorough ==
     Mode("records",  AllConfigs,   ShapesRecords,      FALSE, 1,  TRUE,  1),
     Mode("pairs",    AllConfigs,   ShapesPairs,        FALSE, 2,  TRUE,  5),
     Mode("full4",    HistConfigs,  ShapesPairsQuick,   FALSE, 4,  TRUE,  4),
-    HMode("hist",    AllConfigs,   ShapesHist,         FALSE, 1,  TRUE,  2, 2, {1, 7, 17}, 4),
-    HMode("hist2",   AllConfigs,   ShapesHist,         FALSE, 2,  TRUE,  2, 1, {1, 7}, 4),
-    XMode("alias",   AllConfigs,   ShapesAlias,        FALSE, 1,  TRUE,  2, 2, {1, 7}, 4, {"setsize", "append", "delete"}, {"parsed", "built"}, {}),
-    XMode("live",    LiveConfigs \cup {<<"Changes", "-">>}, ShapesLive, FALSE, 1, TRUE, 3, 2, {7}, 1, LiveKindsT, {"built", "parsed"}, LiveOthersT) }
+    HMode("hist",    AllConfigs,   ShapesHist,         FALSE, 1,  TRUE,  6, 2, {1, 7, 17}, 4),
+    HMode("hist2",   AllConfigs,   ShapesHist,         FALSE, 2,  TRUE,  4, 1, {1, 7}, 4),
+    XMode("alias",   AllConfigs,   ShapesAlias,        FALSE, 1,  TRUE,  7, 2, {1, 7}, 4, {"setsize", "append", "delete", "reorder"}, {"parsed", "built"}, {}),
+    XMode("live",    LiveConfigs \cup {<<"Changes", "-">>}, ShapesLive, FALSE, 1, TRUE, 8, 2, {7}, 1, LiveKindsT, {"built", "parsed"}, LiveOthersT) }
 ModesThoroughP ==
   { Mode("subsetsP", PdiffConfig,  ShapesSubsetsP,     TRUE,  14, TRUE,  2) }
 \* negative controls (small)
@@ -648,5 +724,6 @@ ModesNegSplit     == { Mode("neg", AllConfigs,      ShapesSubsetsQuick, TRUE, 1,
 ModesNegCache     == { HMode("neg", AllConfigs,     ShapesHist, FALSE, 1, TRUE, 1, 1, {7}, 2) }
 ModesNegShared    == { XMode("neg", AliasConfigs,   ShapesAlias, FALSE, 1, TRUE, 1, 1, {7}, 1, {"setsize"}, {"parsed", "built"}, {}) }
 ModesNegStoreFirst == { XMode("neg", {<<"Release", Dak>>, <<"Release", "default">>}, ShapesLive, FALSE, 1, TRUE, 1, 1, {7}, 1, {"setbehfails"}, {"built"}, {}) }
+ModesNegPlain     == { XMode("neg", {<<"Release", Apt>>, <<"Release", Dak>>, <<"PdiffIndex", "-">>, <<"Dsc", "-">>}, ShapesLive, FALSE, 1, TRUE, 1, 1, {7}, 1, {"reorder"}, {"built", "parsed"}, {}) }
 ModesNegClassOpt  == { XMode("neg", LiveConfigs,    ShapesLive,  FALSE, 1, TRUE, 1, 2, {7}, 1, LiveKinds, {"built"}, LiveOthers) }
 =============================================================================
